@@ -250,6 +250,9 @@ def handle : Handler := fun j a => do
           -- C14: the chosen node is never the host the switch moves away from (whoever the recorded master is by now)
           if sw.from_ != "" && h == sw.from_ then
             a := a.violationSig "C14:promoted-the-host-the-switch-moves-away-from" s!"promoted {h}; {j.compress}"
+            -- seen from C07: a request taken up again (its `from` is not the recorded master any more) is neither finished
+            -- nor rejected when the host it moves away from is promoted
+            a := a.violationSig "C07:resumed-request-promotes-the-host-it-moves-away-from" s!"promoted {h}; {j.compress}"
           -- C19: never promoted while it carries relaxed settings or is still registered as optimising
           let reg := (jStrList s "opt_registry").toOption.getD []
           let flush := jIntOr ((((jOpt s "nodes").bind fun n => n.getArr?.toOption).getD #[]).toList.find? (fun n => jStrOr n "host" "" == h) |>.getD Json.null) "flush_log" 1
@@ -306,6 +309,19 @@ def handle : Handler := fun j a => do
         | none, _ => a := a.violationSig "C11:unconfirmed-old-master-not-marked-for-recovery" j.compress
         | _, _ => pure ()
   let promotedOk := obs.any fun o => o.s == "setWritable" && o.ok
+  -- C04 / C11: whatever cut the procedure short (a failed or lost coordination call, an error), a host that is marked for
+  -- recovery afterwards is not in the published list (unless it is the recorded master): the mark is written AFTER the host
+  -- has been taken out of the list
+  let marked := match jOpt j "recovery" with
+    | some (.obj kv) => kv.toList.filterMap fun ((k, _) : String × Json) =>
+        if k.startsWith "recovery/" then some (k.drop 9).toString else none
+    | _ => []
+  let listedAfter := (jStrList j "active_after").toOption.getD []
+  let recordedAfter := jStrOr j "master_after" ""
+  for h in marked do
+    if listedAfter.contains h && h != recordedAfter then
+      a := a.violationSig "C04:host-marked-for-recovery-left-in-the-published-list" s!"{h}: marked {marked}, list {listedAfter} in {j.compress}"
+      a := a.violationSig "C11:marked-host-in-published-active-list" s!"{h}: marked {marked}, list {listedAfter} in {j.compress}"
   -- C07 (re-runnable from what the procedure leaves behind): the list the procedure publishes at promotion is computed from
   -- the cluster as it is THEN — in a run without an injected fault every member of the old list that follows the new master
   -- with both threads running is in it (the successor of a manager that dies right after judges the request against this list)
